@@ -333,7 +333,9 @@ class Mitochondria:
             pathway = self._detect_pathway(expression)
 
         if not self.silent:
-            print(f"⚡ [Mitochondria] Metabolizing: {expression[:50]}...")
+            # Echo only what the console can encode (e.g. lone surrogates would raise)
+            preview = expression[:50].encode("utf-8", "backslashreplace").decode("utf-8")
+            print(f"⚡ [Mitochondria] Metabolizing: {preview}...")
 
         try:
             if pathway == MetabolicPathway.GLYCOLYSIS:
